@@ -10,7 +10,7 @@
     the `core` correspondence family runs against the real chains. *)
 From IBC Require Import Core.ChainExamples.
 From IBC Require Import Lib.Bytes Core.Height Core.HeightFacts Core.Chain Core.World Core.WorldFacts Core.ChainFacts Core.ChainInv Core.ChainThms
-  Core.WorldInv Core.WorldInv2 Core.WorldInv3 Core.WorldThm Core.WorldV2 Core.WorldClose Corr.CoreFam Corr.CoreFamFacts.
+  Core.WorldInv Core.WorldInv2 Core.WorldInv3 Core.WorldThm Core.WorldV2 Core.WorldClose Core.WorldEarly Corr.CoreFam Corr.CoreFamFacts.
 Local Open Scope N_scope.
 
 (** source side, v1: a timeout is processed only if the consensus state at the proof height exists, the
@@ -212,6 +212,29 @@ Print Assumptions C04_log_records_accepted_on_close.
 Example C04_end_to_end_on_close_nonvacuous :
   WI3 exc0 /\ good_steps3 exc0 exc_steps /\ map ce_dst (ca (irun3 exc0 exc_steps)) = [(1, 20, 1)].
 Proof. exact (conj exc_wi (conj exc_good (proj1 exc_accepted))). Qed.
+
+(** *** never early, end to end.  Every MsgTimeout accepted over a remote client is for a packet whose timeout the
+    DESTINATION chain itself has reached (its own height / block time, not merely what a proof claimed), at the moment of
+    acceptance and in every later state: v1 by height or timestamp, v2 in whole seconds of the nanosecond block time. *)
+Theorem C04_never_early_end_to_end x l :
+  WI x -> good_steps x l ->
+  let y := irun x l in
+  (forall e, In e (g_tlog (ga y)) -> t_client e <> w_lh (iw y) ->
+     elapsed (Tmo (t_com e)) (self_h (w_chain (wb (iw y)))) (self_t (w_chain (wb (iw y)))) = true) /\
+  (forall e, In e (g_tlog (gb y)) -> t_client e <> w_lh (iw y) ->
+     elapsed (Tmo (t_com e)) (self_h (w_chain (wa (iw y)))) (self_t (w_chain (wa (iw y)))) = true).
+Proof. exact (timeout_never_early x l). Qed.
+Print Assumptions C04_never_early_end_to_end.
+
+Theorem C04_never_early_end_to_end_v2 x l :
+  WI2 x -> good_steps2 x l ->
+  let y := irun2 x l in
+  (forall e, In e (h_tlog (ha y)) -> t2_client e <> w_lh (iw (iw1 y)) ->
+     Tmo2 (t2_com e) <= ns_to_s (self_t (w_chain (wb (iw (iw1 y)))))) /\
+  (forall e, In e (h_tlog (hb y)) -> t2_client e <> w_lh (iw (iw1 y)) ->
+     Tmo2 (t2_com e) <= ns_to_s (self_t (w_chain (wa (iw (iw1 y)))))).
+Proof. exact (timeout2_never_early x l). Qed.
+Print Assumptions C04_never_early_end_to_end_v2.
 
 (** the correspondence replays real two-chain histories on the same [wstep]; it counts a recorded block that is outside
     the hypothesis [good_step] of the end-to-end theorems as a disagreement ([good_stepb] in Corr/CoreFam.v), so every
